@@ -94,7 +94,7 @@ func (ex *Exec) call(st *State, in ssa.Instruction, c *ssa.CallCommon) (Value, b
 			return v, false
 		}
 	}
-	spec, cf := ex.db.fnSpec(callee)
+	spec, cf := ex.db.fnSpecFor(callee, ex.pkgPath)
 	sig := callee.Signature
 	if spec == nil {
 		if v, ok := ex.knownExternal(st, in, name, args, sig); ok {
